@@ -39,6 +39,9 @@ SCENARIOS = {
                           matrix=[["n_null", 1], ["n_null", 1], ["o_over", 1], ["o_over", 1]]),
     "override-rewrite": dict(prep=[["o_over", 1]], target=["o_over", 2],
                              matrix=[["o_over", 2], ["o_over", 2], ["o_over", 1], ["o_over", 1], ["f_scalar", 2]]),
+    # another call publishes the very same bytes under the same key: the object the earlier memento points at stays as it is
+    "override-same-bytes": dict(prep=[["q_same", 1]], target=["q_same", 2], model=False,
+                                matrix=[["q_same", 1], ["q_same", 2], ["q_same", 2], ["q_same", 1], ["q_same", 3]]),
     # a store that already holds results of other functions; the fault hits the write of a new value
     "populated": dict(prep=[["h_other", 1], ["g_same", 2], ["p_part", 3]], target=["f_scalar", 1],
                       matrix=[["f_scalar", 1], ["h_other", 1], ["g_same", 2], ["p_part", 3], ["f_scalar", 1], ["h_other", 1], ["g_same", 2],
@@ -341,7 +344,7 @@ def main(chk, replay=None):
     proof_ok = chk.build_and_audit()
     quick = chk.tier == "quick"
     todo = [("scalar", "fs"), ("scalar", "fs+cache"), ("scalar", "fs+cache-tiny"), ("partition", "fs"), ("populated", "fs"),
-            ("merged-partition", "fs"), ("array-held", "fs+cache-tiny"), ("ignore-result", "fs")] if quick else \
+            ("merged-partition", "fs"), ("array-held", "fs+cache-tiny"), ("ignore-result", "fs"), ("override-same-bytes", "fs")] if quick else \
         [(s, b) for s in SCENARIOS for b in BACKENDS]
     reported = 0
     for scn, backend in todo:
